@@ -43,6 +43,7 @@ TAG_PAREN = "ccode_composite_text_without_parentheses"            # KF-C15-03: y
 TAG_EMPTY = "ccode_contains_unbounded_interval_prints_nothing"    # KF-C15-04: Contains(x, (-oo, oo)) -> ""
 
 RECIP6 = ("Cot", "Csc", "Sec", "Coth", "Csch", "Sech")
+RINV6 = ("ACot", "ACsc", "ASec", "ACoth", "ACsch", "ASech")      # printed as f(div(one, arg)): the printer inverts arg
 RELHEADS = ("Equality", "Unequality", "LessThan", "StrictLessThan")
 
 
@@ -97,6 +98,15 @@ def paren_risk(d, ctx=None):
         return paren_risk(d[1], "den" if d[2] == ["Integer", "-1"] else None) or paren_risk(d[2])
     if t in RELHEADS or t == "Sign":
         return any(paren_risk(x, "cmp") for x in d[1:])
+    if t in RINV6:
+        a = d[1]
+        if a[0] == "Mul":
+            # 1/(c * prod b_i**e_i) = (1/c) * prod b_i**(-e_i): numerators and denominators change places
+            return any(paren_risk(base, "den" if ex == ["Integer", "1"] else "num" if ex == ["Integer", "-1"] else None)
+                       or paren_risk(ex) for base, ex in a[2])
+        if a[0] == "Pow" and a[2] == ["Integer", "-1"]:
+            return paren_risk(a[1])
+        return paren_risk(a, "den")
     if t == "Contains":
         return paren_risk(d[1], "cmp") or paren_risk(d[2])
     if t == "UnevaluatedExpr":
@@ -123,10 +133,21 @@ def has_huge_int_literal(code):
 FALLBACK = ["add", S("x"), Q(1, 3)]
 
 
+def unsech(r):
+    """evalnum.repair moves the argument of asech into (0, 1] as sech(atan(a)); the same value written as
+    1/cosh(atan(a)) keeps asech out of the by-construction exclusion of KF-C15-03 (asech(sech(u)) is printed
+    acosh(1/1/cosh(u)))"""
+    if not isinstance(r, list):
+        return r
+    if len(r) == 2 and r[0] == "asech" and isinstance(r[1], list) and r[1][0] == "sech" and r[1][1][0] == "atan":
+        return ["asech", ["div", I(1), ["cosh", unsech(r[1][1])]]]
+    return [unsech(x) for x in r]
+
+
 def mk_expr(e, x):
     env = dict(zip(cgen.SYMS, x[0]))
     try:
-        r = en.repair(e, False, env, True)[0]
+        r = unsech(en.repair(e, False, env, True)[0])
     except (en._Bad, ValueError, OverflowError, ZeroDivisionError, TypeError):
         r = FALLBACK       # the repair pass itself left the domain (rare): a fixed tame expression instead
     return {"e": r, "x": x}
@@ -156,7 +177,7 @@ V = [[0.640625, -1.296875, 2.015625, 0.328125], [1.828125, 0.421875, -0.734375, 
      [1.015625, 1.015625, 2.484375, -1.015625], [3.265625, -0.109375, 0.890625, 0.890625]]
 
 
-def table():
+def table(full=True):
     """deterministic table: every supported node type in several argument shapes and printing contexts
     (term of a sum, numerator, denominator, negated, function argument), integer literals around 2^31, 2^53, 2^63,
     2^64, rational and integer powers of every base shape, Max/Min of 2-5, logic, nested Piecewise"""
@@ -164,12 +185,15 @@ def table():
     args = [x, ["add", x, y], ["mul", Q(2, 3), y], ["sub", z, ["real_double", 0.25]], ["div", x, t], ["neg", z],
             ["mul", x, y], ["add", ["sin", x], I(2)], ["pow", y, I(2)], ["abs", t], Q(5, 7), I(3)]
     out = []
+    uargs = args if full else [args[0], args[1], args[4], args[7]]
     for f in cgen.UNARY_C99:
-        for k, a in enumerate(args):
+        for k, a in enumerate(uargs):
             out.append([f, a])
             out.append([["add", [f, a], Q(1, 7)], ["div", t, [f, a]], ["mul", I(-3), [f, a]], ["sub", y, [f, a]],
                         ["mul", [f, a], ["add", x, I(1)]], ["pow", [f, a], I(-2)]][k % 6])
     for i, a in enumerate(args):
+        if not full and i % 3 != 1:
+            continue
         b = args[(i + 5) % len(args)]
         c = args[(i + 7) % len(args)]
         for o in cgen.BINARY + ["atan2"] + cgen.RELS:
@@ -267,13 +291,13 @@ class C15(Check):
                    "gcc -O0 -std=gnu99 -fno-builtin implements C arithmetic on IEEE doubles / floats",
                    "a printer that throws declines; emitted code that uses an identifier which is neither a bound symbol "
                    "nor an ISO C99 <math.h> name is the user's to complete and is declined"]
-    tiers = {"quick": {"examples": 64, "shrink_calls": 40}, "thorough": {"examples": 4800, "shrink_calls": 80}}
+    tiers = {"quick": {"examples": 64, "shrink_calls": 24}, "thorough": {"examples": 4800, "shrink_calls": 80}}
     case_timeout = 900
     timeout = 120.0
 
     # ------------------------------------------------------------------ generation
     def enumerate(self, tier):
-        tb = table()
+        tb = table(tier != "quick")
         exprs = [mk_expr(e, [V[(i + j) % len(V)] for j in range(cgen.NVEC)]) for i, e in enumerate(tb)]
         for i in range(0, len(exprs), BATCH):
             yield {"exprs": exprs[i:i + BATCH]}
